@@ -14,8 +14,8 @@ from ref import wire
 PROPERTY = 'C15'
 META = {
     'bounds': 'reference conversations: status exchange with ping; login + '
-              'play traffic (2 keep-alives, 1 position packet) without and '
-              'with compression; (thorough) status query of a connect() with '
+              'play traffic (2 keep-alives, time update, unknown-id frame, plugin message) without and '
+              'with compression; encrypted login + keep-alive; (thorough) status query of a connect() with '
               'two allowed versions followed by the fallback login.  The '
               'truncation offset t of the server stream is ONE symbolic '
               'integer in [0, N] (every prefix length), keep-alive ids and '
@@ -23,9 +23,7 @@ META = {
               'segmentation); versions 757 and 47; bound on reads after '
               'end-of-stream: 8 (unwinding assertion at 2000 reads, then '
               'confirmed by a concrete replay under a watchdog)',
-    'outside': 'thread interleavings; encrypted conversations (the cipher '
-               'wrappers add no loop of their own: read() is a single '
-               'update() of whatever the stream returned)',
+    'outside': 'thread interleavings; read segmentation (C01)',
     'assumptions': [
         'E-stream with truncation: read() returns b"" forever once the cut '
         'is reached; select reports readable at end-of-stream',
@@ -35,6 +33,9 @@ META = {
 
 
 def shadows(sh, params):
+    if params.get('conversation') == 'enc':
+        from . import c10
+        return c10.shadows(sh, params)
     c11.shadows(sh, params)
 
 
@@ -90,12 +91,52 @@ def truncated(ctx, conversation, pv=757, n_max=None, sentinel=False):
             history.append(cb.KeepAlivePacket(keep_alive_id=k))
         history.append(cb.TimeUpdatePacket(
             world_age=ctx.int('age', 0, (1 << 62)), time_of_day=5))
+        # frames whose decoding never looks at the body length: an id the
+        # library does not know, and a packet ending in a trailing byte array
+        history.append([0x7F] + list(bytes_items(ctx.bytes('unk', 4))))
+        history.append(cb.PluginMessagePacket(channel='ch',
+                                              data=ctx.bytes('pm', 4)))
     threshold = 256 if conversation == 'play_z' else None
     n_total = {'status': 200, 'play': 200, 'play_z': 200,
-               'connect_status': 200}[conversation]
+               'connect_status': 200, 'enc': 300}[conversation]
     cut = ctx.int('cut', 0, n_total)
 
+    zl = netenv.ZlibStub()
+    enc_vals, privkey = None, None
+    if conversation == 'enc':
+        from . import c10
+        enc_vals = {'threshold': 0, 'verify_token': ctx.bytes('vt', 4),
+                    'keep_alive': ctx.int('ka_enc', 0, 127), 'plugin_id0': 0,
+                    'plugin_id1': 0, 'disconnect': '', 'server_id': '-'}
+        if ctx.mode == 'sym':
+            enc_vals['public_key'] = ctx.bytes('public_key', 8)
+            ctx.env['ks_c2s'] = netenv.Keystream('ks_c2s', 300)
+            ctx.env['ks_s2c'] = netenv.Keystream('ks_s2c', 300)
+        else:
+            from cryptography.hazmat.primitives.asymmetric import rsa
+            from cryptography.hazmat.primitives import serialization
+            privkey = rsa.generate_private_key(public_exponent=65537,
+                                               key_size=1024)
+            enc_vals['public_key'] = privkey.public_key().public_bytes(
+                serialization.Encoding.DER,
+                serialization.PublicFormat.SubjectPublicKeyInfo)
+
+        class EncServer(c10.LoginServer):
+            complete = None
+
+            def push(self, items):
+                c10.LoginServer.push(self, items)
+                if self.complete is None:
+                    self.complete = []
+                self.complete.append(len(self.sock.inbox))
+
     def factory(wld, sock):
+        if conversation == 'enc':
+            s = EncServer(wld, sock, pv, 'ES', enc_vals, zl)
+            s.privkey = privkey
+            s.complete = []
+            servers.append(s)
+            return s
         if conversation.startswith('play') or \
                 (conversation == 'connect_status' and sock.index > 0):
             s = CountingPlayServer(wld, sock, cx, history, threshold, None)
@@ -105,7 +146,10 @@ def truncated(ctx, conversation, pv=757, n_max=None, sentinel=False):
                 'description': {'text': 'hi'}})
         servers.append(s)
         return s
-    with World(ctx, factory) as wld:
+    import minecraft.networking.connection as cn_
+    import minecraft.networking.packets.packet as pk_
+    with netenv.patched(pk_, compress=zl.compress), \
+            netenv.patched(cn_, zlib=zl), World(ctx, factory) as wld:
         kw = dict(handle_exit=lambda: exits.append(1),
                   handle_exception=lambda e, i: excs.append(e))
         if conversation == 'connect_status':
@@ -184,13 +228,15 @@ def truncated(ctx, conversation, pv=757, n_max=None, sentinel=False):
 
 def instances(tier, seed):
     out = []
-    convs = [('status', 757), ('play', 757), ('play', 47), ('play_z', 757)]
+    convs = [('status', 757), ('play', 757), ('play', 47), ('play_z', 757),
+             ('enc', 757)]
     if tier == 'thorough':
         convs += [('status', 47), ('play_z', 47), ('connect_status', 757),
                   ('play', 340), ('play', 404)]
     for conv, pv in convs:
         out.append(Instance('truncated:%s:%d' % (conv, pv), 'truncated',
-                            {'conversation': conv, 'pv': pv}, W=96,
+                            {'conversation': conv, 'pv': pv},
+                            W=192 if conv == 'enc' else 96,
                             budget_s=1800, max_decisions=100000,
                             conc_timeout_s=6))
     out.append(Instance('sentinel:truncated', 'truncated',
